@@ -267,6 +267,9 @@ func exxProvenance(c *core.Ctx, prop string, s *Stage) {
 					if _, _, args, isC := callParts(exx); isC && isErrchCall(exx) {
 						ok = ir.Same(args[0], recv)
 						why = "the error channel comes from errch of a different function value than the one whose catch is called"
+						if len(args) > 1 {
+							errchRequest(c, pr.name, st.Pos(), args[1])
+						}
 						if inst := instancesOf(pr); ok && (inst == nil || !(inst.IsConst() && inst.Aux == "1")) {
 							ok = false
 							why = fmt.Sprintf("the error channel comes from errch, whose capacity is chosen by the function kind (1 for fail-fast), but %s workers may each hand over one error with a plain send: the second failing worker blocks forever", short(inst))
@@ -291,6 +294,50 @@ func exxProvenance(c *core.Ctx, prop string, s *Stage) {
 				c.Check(ok, "exx-provenance", site, st.Pos(), "catch(ctx, err, stage's exx)", "%s", why)
 			}
 		}
+	}
+}
+
+// errchRequest: the capacity a stage asks its error channel to have is a function of the stage's own capacity
+// (cap of an input channel, or the capacity parameter) - never of len(ch), which is whatever happened to be
+// queued when the stage was built, and never a constant that forgets the input's capacity.
+func errchRequest(c *core.Ctx, name string, pos token.Pos, q *ir.Term) {
+	if c.Rules["errch-request"] == nil {
+		c.Doc("errch-request", 2, "the capacity requested from errch derives from cap(in) / the capacity parameter, never from len of a channel")
+	}
+	var vol, base *ir.Term
+	var walk func(t *ir.Term)
+	walk = func(t *ir.Term) {
+		if t == nil {
+			return
+		}
+		switch t.Op {
+		case "len":
+			if len(t.Args) > 0 && t.Args[0].Typ != nil {
+				if _, isCh := t.Args[0].Typ.Underlying().(*types.Chan); isCh && vol == nil {
+					vol = t
+				}
+			}
+		case "cap":
+			if len(t.Args) > 0 && isInputChan(t.Args[0]) && base == nil {
+				base = t
+			}
+		case "param":
+			if b, isB := t.Typ.Underlying().(*types.Basic); isB && b.Info()&types.IsInteger != 0 && base == nil {
+				base = t
+			}
+		}
+		for _, a := range t.Args {
+			walk(a)
+		}
+	}
+	walk(q)
+	switch {
+	case vol != nil:
+		c.Fail("errch-request", name, pos, "the error channel is requested with capacity %s: %s is the number of elements queued at the moment the stage is built (0 behind another stage), so a try stage cannot hold its errors and blocks once the value consumer reads first", short(q), short(vol))
+	case base == nil:
+		c.Fail("errch-request", name, pos, "the error channel is requested with capacity %s, which does not derive from the stage's own capacity (cap of its input / its capacity parameter)", short(q))
+	default:
+		c.Check(true, "errch-request", name, pos, "errch("+short(q)+")", "")
 	}
 }
 
@@ -579,6 +626,22 @@ func stageLifecycleRules(c *core.Ctx, s *Stage, o lifecycleOpts) {
 		}
 	}
 
+	// ---- the caller's slice is read before the stage function returns ------------
+	if c.Rules["caller-slice-read"] == nil {
+		c.Doc("caller-slice-read", 1, "no goroutine of a stage reads an element of a slice argument: the caller owns that slice again once the stage function has returned")
+	}
+	for _, pr := range procs {
+		if pr.g == nil {
+			continue
+		}
+		bad, what := callerSliceRead(pr.fn, s.Fn)
+		if bad != nil {
+			c.Fail("caller-slice-read", pr.name, bad.Pos(), "the goroutine reads an element of %s, the caller's slice, after the stage function may have returned: a caller that reuses or clears its slice redirects or strands the goroutine (elements must be read in the stage function and handed over by value)", what)
+		} else {
+			c.Ok("caller-slice-read", pr.name, pr.fn.Pos(), "")
+		}
+	}
+
 	// ---- panic sources ---------------------------------------------------------
 	for _, pr := range procs {
 		ok := true
@@ -586,6 +649,11 @@ func stageLifecycleRules(c *core.Ctx, s *Stage, o lifecycleOpts) {
 			if p.Exit == ir.ExitPanic {
 				ok = false
 				c.Fail("no-panic-source", pr.name, lastPos(p), "explicit panic reachable in a library goroutine")
+				break
+			}
+			if st, d := divisionWithoutGuard(pr.an, p, func(d *ir.Term) bool { return spawnGuardsNonZero(s, pr, d) }); st != nil {
+				ok = false
+				c.Fail("no-panic-source", pr.name, st.Pos(), "an integer division by %s is executed although the path has not excluded %s == 0 (the goroutine dies with 'integer divide by zero')", short(d), short(d))
 				break
 			}
 			if st := constIndexWithoutBound(p); st != nil {
@@ -1291,4 +1359,210 @@ func constIndexWithoutBound(p *ir.Path) *ir.Step {
 		}
 	}
 	return nil
+}
+
+// excludesZero: a branch among the first upto steps of p can only have been taken with d != 0.
+func excludesZero(p *ir.Path, upto int, d *ir.Term) bool {
+	for i := 0; i < upto && i < len(p.Steps); i++ {
+		st := &p.Steps[i]
+		if st.Kind != ir.KBranch || !mentions(st.Atom, d) {
+			continue
+		}
+		at := ir.Rebuild(substTerm(st.Atom, d, ir.Const("0")))
+		if at.IsConst() && (at.Aux == "true" || at.Aux == "false") && (at.Aux == "true") != st.Pol {
+			return true
+		}
+	}
+	return false
+}
+
+// excludesZeroBefore: as excludesZero, looking also through the segments that lead to the loop head p starts at
+// (every way into that head must have excluded d == 0; a way round the loop is assumed to, coinductively).
+func excludesZeroBefore(an *ir.Analysis, p *ir.Path, upto int, d *ir.Term, seen map[*ir.Path]bool) bool {
+	if excludesZero(p, upto, d) {
+		return true
+	}
+	if p.From == nil || an == nil {
+		return false
+	}
+	seen[p] = true
+	n := 0
+	for _, qs := range an.Segs {
+		for _, q := range qs {
+			if q.To != p.From {
+				continue
+			}
+			n++
+			if seen[q] {
+				continue
+			}
+			if !excludesZeroBefore(an, q, len(q.Steps), d, seen) {
+				return false
+			}
+		}
+	}
+	return n > 0
+}
+
+// divisionWithoutGuard: the path evaluates an integer x / d or x % d whose divisor is not a non-zero constant
+// and no earlier branch of the path (nor of the spawning paths, asked through outer) excludes d == 0.
+func divisionWithoutGuard(an *ir.Analysis, p *ir.Path, outer func(d *ir.Term) bool) (*ir.Step, *ir.Term) {
+	for i := range p.Steps {
+		st := &p.Steps[i]
+		var div *ir.Term
+		visit := func(t *ir.Term) {
+			if t == nil || div != nil {
+				return
+			}
+			t.Walk(func(x *ir.Term) {
+				if div != nil || x.Op != "bin" || (x.Aux != "/" && x.Aux != "%") || len(x.Args) != 2 {
+					return
+				}
+				ty := x.Typ
+				if ty == nil {
+					ty = x.Args[1].Typ
+				}
+				if ty == nil {
+					return
+				}
+				if b, isB := ty.Underlying().(*types.Basic); !isB || b.Info()&types.IsInteger == 0 {
+					return
+				}
+				d := x.Args[1]
+				for d.Op == "conv" && len(d.Args) == 1 {
+					d = d.Args[0]
+				}
+				if k, isK := d.IntConst(); isK && k != 0 {
+					return
+				}
+				div = d
+			})
+		}
+		for _, a := range st.A {
+			visit(a)
+		}
+		visit(st.R)
+		visit(st.Atom)
+		for _, arm := range st.Arms {
+			visit(arm.Chan)
+			visit(arm.Val)
+		}
+		if div != nil && !excludesZeroBefore(an, p, i, div, map[*ir.Path]bool{}) && !(outer != nil && outer(div)) {
+			return st, div
+		}
+	}
+	return nil, nil
+}
+
+// spawnGuardsNonZero: every path of the spawning function that reaches the go statement of pr excluded d == 0 before it.
+func spawnGuardsNonZero(s *Stage, pr *proc, d *ir.Term) bool {
+	if pr.g == nil || pr.g.Spawn == nil {
+		return false
+	}
+	parent := s.Outer
+	if pr.g.Parent != nil {
+		parent = pr.g.Parent.An
+	}
+	if parent == nil {
+		return false
+	}
+	n := 0
+	for _, p := range parent.AllPaths() {
+		for i := range p.Steps {
+			if p.Steps[i].Instr == pr.g.Spawn.Instr {
+				n++
+				if !excludesZeroBefore(parent, p, i, d, map[*ir.Path]bool{}) {
+					return false
+				}
+			}
+		}
+	}
+	return n > 0
+}
+
+// callerSliceRead: fn (a goroutine body, possibly a closure inside the stage function) indexes a slice that is a
+// parameter of the stage function, reached through its captured variables.
+func callerSliceRead(fn, stage *ssa.Function) (ssa.Instruction, string) {
+	var origin func(f *ssa.Function, v ssa.Value, depth int) *ssa.Parameter
+	origin = func(f *ssa.Function, v ssa.Value, depth int) *ssa.Parameter {
+		if depth > 6 {
+			return nil
+		}
+		switch x := v.(type) {
+		case *ssa.UnOp:
+			if x.Op == token.MUL {
+				return origin(f, x.X, depth+1)
+			}
+		case *ssa.Slice:
+			return origin(f, x.X, depth+1)
+		case *ssa.Parameter:
+			if f == stage {
+				if _, isSlice := x.Type().Underlying().(*types.Slice); isSlice {
+					return x
+				}
+			}
+		case *ssa.Alloc:
+			// a spilled parameter
+			for _, r := range *x.Referrers() {
+				if st, isSt := r.(*ssa.Store); isSt && st.Addr == ssa.Value(x) {
+					if p := origin(f, st.Val, depth+1); p != nil {
+						return p
+					}
+				}
+			}
+		case *ssa.FreeVar:
+			par := f.Parent()
+			if par == nil {
+				return nil
+			}
+			idx := -1
+			for i, fv := range f.FreeVars {
+				if fv == x {
+					idx = i
+				}
+			}
+			for _, b := range par.Blocks {
+				for _, in := range b.Instrs {
+					if mc, isMC := in.(*ssa.MakeClosure); isMC && mc.Fn == ssa.Value(f) && idx >= 0 && idx < len(mc.Bindings) {
+						if p := origin(par, mc.Bindings[idx], depth+1); p != nil {
+							return p
+						}
+					}
+				}
+			}
+		}
+		return nil
+	}
+	var visit func(f *ssa.Function) (ssa.Instruction, string)
+	visit = func(f *ssa.Function) (ssa.Instruction, string) {
+		for _, b := range f.Blocks {
+			for _, in := range b.Instrs {
+				var x ssa.Value
+				switch in := in.(type) {
+				case *ssa.IndexAddr:
+					x = in.X
+				case *ssa.Index:
+					x = in.X
+				case *ssa.Range:
+					x = in.X
+				}
+				if x == nil {
+					continue
+				}
+				if p := origin(f, x, 0); p != nil {
+					return in, p.Name()
+				}
+			}
+		}
+		for _, a := range f.AnonFuncs {
+			if in, w := visit(a); in != nil {
+				return in, w
+			}
+		}
+		return nil, ""
+	}
+	if fn == stage {
+		return nil, ""
+	}
+	return visit(fn)
 }
